@@ -4,7 +4,9 @@ PROP = {
   "saml2_tophat.ident:code",
   "saml2_tophat.ident:IdentDB.store",
   "saml2_tophat.ident:IdentDB.remove_local",
-  "saml2_tophat.ident:IdentDB.find_local_id"
+  "saml2_tophat.ident:IdentDB.find_local_id",
+  "saml2_tophat.ident:IdentDB.remove_remote",
+  "saml2_tophat.ident:IdentDB.handle_manage_name_id_request"
  ],
  "bounded": [
   "ident_history"
